@@ -1,6 +1,7 @@
 import MesaModel.Model.Viz
 import MesaModel.Model.VizLayers
 import MesaModel.Model.VizAltair
+import MesaModel.Model.VizInputs
 /-!
 Line-protocol driver for the Viz model (C20).  One output line per input line.
 Producer: harness/viz_common.py.
@@ -26,6 +27,10 @@ Producer: harness/viz_common.py.
   check KEY…
   split KEY:slider | KEY:val | KEY:dict[+k…] …
   creator (same tokens)
+  inputs NAME:SPEC …                 ModelCreator rendered on the full parameter dict; SPEC ∈ slider/i|f/VALUE/LABEL,
+                                     spec/TYPE/VALUE/LABEL (a dict with "type"; VALUE, LABEL: `-` if absent), fdict (a dict
+                                     without "type"), val/VALUE
+  change NAME VALUE                  the input of parameter NAME reports VALUE (after a successful `inputs`)
 -/
 open Mesa.Viz
 
@@ -67,6 +72,8 @@ structure St where
   portray : List (Nat × Ref) := []
   layers : List (String × Layer) := []
   sig : Option (List Param) := none
+  mparams : Option (List (String × Option Val)) := none
+  widgets : List Widget := []
 
 def St.portrayal (st : St) : Portrayal := fun a => st.portray.lookup a
 
@@ -238,6 +245,37 @@ def fmtCheck : Except CheckErr Unit → String
   | .error (.missing n) => s!"err missing {n}"
   | .error (.invalid n) => s!"err invalid {n}"
 
+def parseParamVal (s : String) : Option (String × ParamVal) :=
+  match s.splitOn ":" with
+  | [k, v] =>
+    if k = "" then none else
+    match v.splitOn "/" with
+    | ["slider", f, value, label] =>
+      if value = "" || label = "" then none
+      else if f = "i" then some (k, .slider false label value)
+      else if f = "f" then some (k, .slider true label value) else none
+    | ["spec", type, value, label] =>
+      if type = "" || value = "" || label = "" then none
+      else some (k, .spec type (if value = "-" then none else some value) (if label = "-" then none else some label))
+    | ["fdict"] => some (k, .plainDict)
+    | ["val", value] => if value = "" then none else some (k, .plain value)
+    | _ => none
+  | _ => none
+
+def fmtKind : WidgetKind → String
+  | .sliderInt => "sliderint" | .sliderFloat => "sliderfloat" | .select => "select"
+  | .checkbox => "checkbox" | .inputText => "inputtext"
+
+def fmtNone : Option Val → String
+  | none => "None"
+  | some v => v
+
+def fmtParams (ps : List (String × Option Val)) : String :=
+  orDash (",".intercalate (ps.map fun kv => s!"{kv.1}:{fmtNone kv.2}"))
+
+def fmtWidgets (ws : List Widget) : String :=
+  orDash (",".intercalate (ws.map fun w => s!"{fmtKind w.kind}/{w.name}/{w.label}/{fmtNone w.value}"))
+
 def fmtNames (ps : List (String × PyVal)) : String := orDash (",".intercalate (ps.map (·.1)))
 
 def withSpace (st : St) (f : Space → St × String) : St × String :=
@@ -374,6 +412,24 @@ def stepLine (st : St) (ws : List String) : St × String :=
     match st.params, st.sig, ps.mapM parsePyVal with
     | true, some sig, some ps => (st, fmtCheck (creatorCheck sig ps))
     | _, _, _ => (st, "bad-op")
+  | "inputs" :: ps =>
+    match st.params, st.sig, ps.mapM parseParamVal with
+    | true, some sig, some ps =>
+      -- the parameters are a dict: one entry per name
+      if !(ps.map (·.1)).Nodup then (st, "bad-op") else
+      match modelCreator sig ps with
+      | .error (.unsupported t) => ({ st with mparams := none, widgets := [] }, s!"err unsupported {t}")
+      | .error (.check e) => ({ st with mparams := none, widgets := [] }, fmtCheck (.error e))
+      | .ok (mp, ws) => ({ st with mparams := some mp, widgets := ws }, s!"ok params={fmtParams mp} widgets={fmtWidgets ws}")
+    | _, _, _ => (st, "bad-op")
+  | ["change", name, value] =>
+    match st.mparams with
+    | some mp =>
+      if st.widgets.any (·.name == name) then
+        let mp' := onChange mp name value
+        ({ st with mparams := some mp' }, s!"ok params={fmtParams mp'}")
+      else (st, "err noinput")
+    | none => (st, "err noinput")     -- the last `inputs` was refused (or there was none): no input to change
   | _ => (st, "bad-op")
 
 partial def loop (h : IO.FS.Stream) (out : IO.FS.Stream) (st : St) : IO Unit := do
